@@ -1316,6 +1316,11 @@ func (h *hist) scriptGetCache() {
 	h.opAdd("b1", "admin", ag0, "u2@example.com", []string{"/private"}, []string{})
 	h.opSeen("b1", "live")
 	h.opUStart("u1@example.com", "GET", "/private", 0, []string{}, false)
+	// the agent of us0's backend has not polled for longer than the liveness window: also a URL us0 was served before is a 404 now
+	h.ages("b0", 400)
+	h.opUStart(us0, "GET", "/page?x=1", 0, []string{}, false)
+	h.ages("b0", 2)
+	h.opUStart(us0, "GET", "/page?x=1", 0, []string{}, false) // live again: the cached response
 }
 
 // script 6: an agent's poll refreshes the liveness of its backend (trackers close to the end of the window)
